@@ -332,9 +332,21 @@ func (c *Ctx) dictLookup() {
 				}
 			})
 			if hasEq {
+				// a loop over the whole key list: a range loop, or an index loop bounded by len(keys)
 				for _, b := range g.Blocks {
 					if b.Comment == "rangeindex.loop" {
 						scan = true
+					}
+					if ifi := lastIf(b); ifi != nil && inLoop(b) {
+						if bo, ok := ifi.Cond.(*ssa.BinOp); ok && bo.Op == token.LSS {
+							if _, isPhi := bo.X.(*ssa.Phi); isPhi {
+								if cl := callOf(bo.Y); cl != nil {
+									if bi, ok := cl.Call.Value.(*ssa.Builtin); ok && bi.Name() == "len" {
+										scan = true
+									}
+								}
+							}
+						}
 					}
 				}
 			}
@@ -411,7 +423,7 @@ func (c *Ctx) writeWidthPreconditions(rels ...string) {
 			p := c.newProver(f, b)
 			if proveAll(p, g) || c.phiSplit(f, b, g) {
 				c.ok(R, key, cl.Pos(), "width proved <= 64")
-			} else if why, ok := excWidth[key]; ok {
+			} else if why, ok := excLookupS(excWidth, key); ok {
 				c.exc(R, key, cl.Pos(), why)
 			} else {
 				c.bad(R, key, cl.Pos(), fmt.Sprintf("%s is called with a width not proved <= 64: above 64 bits the writer silently emits zeros for the high positions instead of failing", shortQ(q)))
